@@ -18,9 +18,10 @@ import (
 	wc "verif/harness/walkcase"
 )
 
-var names = []string{"a", "b", "a.b", "-x", "sp ace", "é", "node_modules", "ab", "f", "g", "..data", "...", ".h"}
+var names = []string{"a", "b", "a.b", "-x", "sp ace", "é", "node_modules", "ab", "f", "g", "..data", "...", ".h", " a", "b ", "\tg"}
 var rawPool = []string{"*.b", "/a", "a/b", "**/f", "a/**", "!a.b", "[ab]", `sp\ ace`, "#a", "  ", `\!x`, "a/", "*", "?", "ab*", ".h", "..data", "é",
-	"/sp ace", "**/ab/", "!*/", "g ", "node_modules/", "/**/g", "a*/", "-x", "!/a", "b/*", "*/", "!f", "a.?", "/*", "!.h"}
+	"/sp ace", "**/ab/", "!*/", "g ", "node_modules/", "/**/g", "a*/", "-x", "!/a", "b/*", "*/", "!f", "a.?", "/*", "!.h",
+	" a", "b ", "\tg", " f", "a ", `b\ `, " !a", "  # x", "\t"}
 var rxPool = []string{`^a$`, `b`, `node_modules`, `^(a|b)/`, `\.b$`, `^-x`, `^\.$`, `é`, `^a/ab$`}
 var glPool = []string{`a`, `*/b`, `**/node_modules`, `a*`, `{a,b}`, `sp ace`, `**/ab`, `.`, `a/*`}
 
@@ -59,6 +60,9 @@ func (g *gen) tree(maxDepth, maxNodes int) *wc.Node {
 			}
 			for j := g.r.Intn(3); j > 0 && !raw; j-- {
 				nm := names[g.r.Intn(len(names))]
+				for strings.TrimSpace(nm) != nm { // blank-affixed patterns belong to the full syntax (table mode): git trims / keeps them by its own rules
+					nm = names[g.r.Intn(len(names))]
+				}
 				if p == "." && g.r.Intn(40) == 0 {
 					nm = "." // the one pattern a root .gitignore must not carry (GiOK): exercised, excluded from the oracle
 				}
